@@ -56,11 +56,15 @@ def _run_mixed(args):
     text = ''
     nsets = ngroups = 0
     start = 0
+    part_ranges = []          # (map, first segment, last segment) of each document in the file; the reader's line counter counts segments
+    nseg_total = 0
     for fn, full, doc, mode in parts:
         c = wc.Concretiser(full, triple, eol, fill_optional=mode)
         c.isa_start = start
         t, info = c.build(doc)
         start = c.isa_n
+        part_ranges.append((fn, nseg_total + 1, nseg_total + len(info)))
+        nseg_total += len(info)
         text += t
         if not (c.entry and c.entry['fic'] == 'FA'):
             nsets += sum(1 for x in info if x[1] == 'ST')
@@ -69,7 +73,7 @@ def _run_mixed(args):
     sets, groups = wc.ack_codes(r['ack'])
     rec = {'id': tid, 'map': '+'.join(p[0] for p in parts), 'nodes': [], 'matched': [x['path'] for x in r['nodes']], 'verdict': r['verdict'] if r['verdict'] is not None else False,
            'nerr': len(r['errors']), 'sets': sets, 'groups': groups, 'nsets': nsets, 'ngroups': ngroups, 'exc': r['exc'], 'mode': 'mixed', 'triple': ''.join(triple), 'eol': eol,
-           'errors': r['errors'][:6], 'site': r.get('site', '')}
+           'errors': r['errors'][:6], 'site': r.get('site', ''), 'parts': part_ranges}
     return rec, text
 
 
@@ -210,6 +214,12 @@ def run(tier, replay=None):
                 raise vlib.MachineryError('generated document %s of %s is not a walk of the map' % (tid, rec['map']))
             first = rec['errors'][0] if rec['errors'] else {}
             sig = {'clause': clause, 'map': rec['map']}
+            if rec.get('mode') == 'mixed' and rec.get('parts'):
+                # a file of several documents: the finding belongs to the map of the document the first error lies in
+                ln = ([e.get('line', -1) for e in rec['errors'] if e.get('line', -1) > 0] or [-1])[0]
+                for (pm, lo, hi) in rec['parts']:
+                    if lo <= ln <= hi:
+                        sig['map'] = pm
             if clause == 'exception':
                 sig.update({'exc': rec['exc'], 'site': rec['site']})
             elif first:
